@@ -298,8 +298,19 @@ def opRename (s : St) (old new : String) : Option St := do
   pure (updatemeta (renamePre s v old new))
 
 inductive FnK where
-  | mean | min | max | sum | id | first2 | rev
+  | mean | min | max | sum | id | first2 | rev | every2 | ends
 deriving DecidableEq, Repr
+
+/-- `x[::2]` -/
+def every2 : List Rat → List Rat
+  | [] => []
+  | [x] => [x]
+  | x :: _ :: rest => x :: every2 rest
+
+/-- `x[[0, -1]]` -/
+def ends : List Rat → List Rat
+  | [] => []
+  | x :: rest => [x, rest.getLastD x]
 
 def applyFn : FnK → List Rat → List Rat
   | .mean, l => if l.isEmpty then [] else [l.foldl (· + ·) 0 / (l.length : Nat)]
@@ -313,6 +324,8 @@ def applyFn : FnK → List Rat → List Rat
   | .id, l => l
   | .first2, l => l.take 2
   | .rev, l => l.reverse
+  | .every2, l => every2 l
+  | .ends, l => ends l
 
 def fnLen (f : FnK) (n : Nat) : Nat := (applyFn f ((List.range n).map (fun (i : Nat) => (i : Rat)))).length
 
@@ -481,7 +494,7 @@ def parseWin (s : String) : Option Win :=
 
 def parseFn : String → Option FnK
   | "mean" => some .mean | "min" => some .min | "max" => some .max | "sum" => some .sum
-  | "id" => some .id | "first2" => some .first2 | "rev" => some .rev
+  | "id" => some .id | "first2" => some .first2 | "rev" => some .rev | "every2" => some .every2 | "ends" => some .ends
   | _ => none
 
 /-- `copy`, `slice@TSTEP~i:3;LAY~s:1:_`, `subset@a.b`, `rename@old@new`, `apply@DIM@fn`, `eval@new@src@0`,
